@@ -6,3 +6,10 @@ func VerifC02_FwHistory() { verifFwHistory("C02", false) }
 
 // single Interest carrying a consumer-chosen next hop (NextHopFaceId)
 func VerifC02_NextHopFaceId() { verifFwHistory("C02", false) }
+
+// longer Interest-side histories (fixed shapes, every parameter symbolic): retransmissions around the suppression
+// interval, re-expression after expiry and after satisfaction
+func VerifC02_Script_IAII() { verifFwScript("C02", false, []string{"IAII"}) }
+func VerifC02_Script_IIAI() { verifFwScript("C02", false, []string{"IIAI"}) }
+func VerifC02_Script_IDAI() { verifFwScript("C02", false, []string{"IDAI"}) }
+func VerifC02_Script_IIII() { verifFwScript("C02", false, []string{"IIII"}) }
